@@ -16,6 +16,7 @@ CONSTANTS MaxC,       \* containers ever created
           MaxE,       \* elements per container
           Sizes,      \* scalar sizes (straddling the inline limits so that children cross them)
           KSz, NKeys, \* map keys: 1..NKeys of size KSz
+          BigKeys,    \* keys too large to be stored inline in a map (externally stored keys)
           Wraps,      \* wrapper levels for children, e.g. {0, 1}
           Kinds,      \* kinds of child containers: "A" array, "M" map, "C" map with a composite type (compact encoding when inlined)
           Persist, EmitDepth
@@ -48,6 +49,7 @@ InsAt(s, i, x) == SubSeq(s, 1, i) \o <<x>> \o SubSeq(s, i + 1, Len(s))       \* 
 RemAt(s, i) == SubSeq(s, 1, i) \o SubSeq(s, i + 2, Len(s))
 SetAt(s, i, x) == [s EXCEPT ![i + 1] = x]
 
+KS(k) == IF k \in BigKeys THEN 70 ELSE KSz
 H(o) == hist' = Append(hist, o)
 Keep == UNCHANGED <<committed, hasc>>
 
@@ -93,34 +95,35 @@ MSetS(h, k, sz, keep) ==
   /\ IF HasK(h, k)
      THEN LET p == Pos(h, k)  x == cont[h].el[p]
               r == Release([cont EXCEPT ![h].el = [@ EXCEPT ![p] = S(nextId, sz, k)]], x, keep) IN
-          cont' = r.c /\ live' = r.lv /\ H(<<"n.mset", h, k, KSz, nextId, sz, 0, keep, RV(x)>>)
+          cont' = r.c /\ live' = r.lv /\ H(<<"n.mset", h, k, KS(k), nextId, sz, 0, keep, RV(x)>>)
      ELSE cont' = [cont EXCEPT ![h].el = Append(@, S(nextId, sz, k))] /\ UNCHANGED live
-          /\ H(<<"n.mset", h, k, KSz, nextId, sz, 0, keep, 0>>)
+          /\ H(<<"n.mset", h, k, KS(k), nextId, sz, 0, keep, 0>>)
   /\ nextId' = nextId + 1 /\ UNCHANGED nextVid /\ Keep
 MSetC(h, k, kind, w) ==
   /\ cont[h].kind \in {"M", "C"} /\ ~HasK(h, k) /\ Len(cont[h].el) < MaxE /\ nextVid <= MaxC /\ Depth(h) < MaxDepth
   /\ cont' = [cont EXCEPT ![h].el = Append(@, C(nextVid, w, k)), ![nextVid] = [kind |-> kind, par |-> h, el |-> <<>>]]
   /\ live' = live \cup {nextVid} /\ nextVid' = nextVid + 1 /\ UNCHANGED nextId /\ Keep
-  /\ H(<<"n.msetc", h, k, KSz, nextVid, kind, w>>)
+  /\ H(<<"n.msetc", h, k, KS(k), nextVid, kind, w>>)
 MRem(h, k, keep) ==
   /\ cont[h].kind \in {"M", "C"} /\ HasK(h, k)
   /\ LET p == Pos(h, k)  x == cont[h].el[p]
          r == Release([cont EXCEPT ![h].el = RemAt(@, p - 1)], x, keep) IN
-     cont' = r.c /\ live' = r.lv /\ H(<<"n.mrem", h, k, KSz, keep, RV(x)>>)
+     cont' = r.c /\ live' = r.lv /\ H(<<"n.mrem", h, k, KS(k), keep, RV(x)>>)
   /\ UNCHANGED <<nextVid, nextId>> /\ Keep
 MGet(h, k) == /\ cont[h].kind \in {"M", "C"} /\ HasK(h, k) /\ cont[h].el[Pos(h, k)].t = "c"
               /\ LET c == cont[h].el[Pos(h, k)].id IN
-                 live' = (live \ Sub(c)) \cup {c} /\ H(<<"n.mget", h, k, KSz, c>>)
+                 live' = (live \ Sub(c)) \cup {c} /\ H(<<"n.mget", h, k, KS(k), c>>)
               /\ UNCHANGED <<cont, nextVid, nextId>> /\ Keep
 MAttach(h, k, d, w) == /\ cont[h].kind \in {"M", "C"} /\ ~HasK(h, k) /\ Len(cont[h].el) < MaxE /\ d \in Detached /\ d \in live
                        /\ d \notin Sub(h) /\ h \notin Sub(d) /\ Depth(h) + Height(d) <= MaxDepth
                        /\ cont' = [cont EXCEPT ![h].el = Append(@, C(d, w, k)), ![d].par = h]
-                       /\ UNCHANGED <<live, nextVid, nextId>> /\ Keep /\ H(<<"n.mattach", h, k, KSz, d, w>>)
+                       /\ UNCHANGED <<live, nextVid, nextId>> /\ Keep /\ H(<<"n.mattach", h, k, KS(k), d, w>>)
 \* ---- re-acquire handles to all children of h through its mutable iterator
 Children(h) == {cont[h].el[i].id : i \in {j \in 1..Len(cont[h].el) : cont[h].el[j].t = "c"}}
 Iter(h) == /\ Children(h) # {}
            /\ live' = (live \ UNION {Sub(c) : c \in Children(h)}) \cup Children(h)
            /\ UNCHANGED <<cont, nextVid, nextId>> /\ Keep /\ H(<<"n.iter", h>>)
+SetType(h, ti) == /\ UNCHANGED <<cont, live, nextVid, nextId>> /\ Keep /\ H(<<"n.settype", h, ti>>)
 \* ---- bulk pop through any live handle (children are disposed)
 Pop(h) == /\ Len(cont[h].el) > 0
           /\ LET gone == UNION {Sub(cont[h].el[i].id) : i \in {j \in 1..Len(cont[h].el) : cont[h].el[j].t = "c"}} IN
@@ -151,6 +154,7 @@ Next ==
   \/ \E h \in live, k \in 1..NKeys : MGet(h, k)
   \/ \E h \in live, k \in 1..NKeys, d \in Detached, w \in Wraps : MAttach(h, k, d, w)
   \/ Rare(3) /\ \E h \in live : Iter(h)
+  \/ Rare(5) /\ \E h \in live, ti \in {43, 44, 45} : SetType(h, ti)
   \/ Rare(9) /\ \E h \in live : Pop(h)
   \/ Rare(4) /\ ((\E m \in {"det", "nondet"}, w \in {1, 3} : Commit(m, w)) \/ Drop \/ Crash)
 
